@@ -32,6 +32,9 @@ pub struct Case {
     pub cell_t: Option<usize>,
     pub outline_tagged: bool,
     pub with_plain: bool,
+    /// 0: outline `@o1 @o2`, table `@t<i>`; 1: the table's first tag equals the
+    /// outline's last one; 2: a tag repeated back to back on both
+    pub tag_mode: u8,
 }
 
 impl Case {
@@ -45,7 +48,7 @@ impl Case {
             s += &format!("{ind}Scenario: before <a>\n{ind}  Given keep <a>\n");
         }
         if self.outline_tagged {
-            s += &format!("{ind}@o1 @o2\n");
+            s += &format!("{ind}{}\n", if self.tag_mode == 2 { "@o1 @o1 @o2" } else { "@o1 @o2" });
         }
         s += &format!("{ind}Scenario Outline: n {}\n", TEMPLATES[self.name_t]);
         s += &format!("{ind}  Given s {}\n", TEMPLATES[self.step_t]);
@@ -57,7 +60,11 @@ impl Case {
         }
         for (i, t) in self.tables.iter().enumerate() {
             if t.tagged {
-                s += &format!("{ind}  @t{i}\n");
+                s += &match self.tag_mode {
+                    1 => format!("{ind}  @o2 @t{i}\n"),
+                    2 => format!("{ind}  @t{i} @t{i} @o1\n"),
+                    _ => format!("{ind}  @t{i}\n"),
+                };
             }
             s += &format!("{ind}  Examples:\n");
             s += &format!("{ind}    | {} |\n", t.cols.join(" | "));
@@ -314,16 +321,24 @@ pub fn cases(thorough: bool) -> Vec<Case> {
                         if !thorough && outline_tagged != with_plain {
                             continue;
                         }
-                        out.push(Case {
-                            in_rule,
-                            tables: tb.clone(),
-                            name_t: *n,
-                            step_t: *s,
-                            doc_t: *d,
-                            cell_t: *c,
-                            outline_tagged,
-                            with_plain,
-                        });
+                        let any_tag = outline_tagged || tb.iter().any(|t| t.tagged);
+                        for tag_mode in 0..3u8 {
+                            // the tag variants matter on one placement of the templates only
+                            if tag_mode > 0 && (!any_tag || (*n, *s, *d, *c) != (0, 0, None, None)) {
+                                continue;
+                            }
+                            out.push(Case {
+                                in_rule,
+                                tables: tb.clone(),
+                                name_t: *n,
+                                step_t: *s,
+                                doc_t: *d,
+                                cell_t: *c,
+                                outline_tagged,
+                                with_plain,
+                                tag_mode,
+                            });
+                        }
                     }
                 }
             }
